@@ -1,12 +1,12 @@
 #!/bin/bash
 # Offline build of the framework: regenerate translated models from /repo, full .vo build of the Coq development.
-set -e
 cd "$(dirname "$0")"
 export PYTHONHASHSEED=0 PYTHONPATH=/verif:/repo IPV8_VERIF=1 PYTHONDONTWRITEBYTECODE=1
-/venv/bin/python -m tools.regen
+/venv/bin/python -m tools.regen || echo "warning: a translator aborted; the affected checks will report it"
 cd coq
-coq_makefile -f _CoqProject $(find lib model gen spec proofs props -name '*.v' | sort) -o Makefile > /dev/null
-find lib model gen spec proofs props -name '*.v' | sort | sed 's#^\./##' | tr '\n' '\n' | sed '$!{:a;N;$!ba}' > /dev/null
+coq_makefile -f _CoqProject $(find lib model gen spec proofs props -name '*.v' | sort) -o Makefile > /dev/null || exit 1
 rm -f .vfiles
-timeout 3000 make -j16 > /tmp/verif-setup.log 2>&1 || { tail -50 /tmp/verif-setup.log; exit 1; }
+mkdir -p ../replay
+timeout 3000 make -k -j16 > ../replay/setup.log 2>&1 || { echo "warning: some Coq files did not build (see replay/setup.log):"; grep -B2 -A12 '^Error' ../replay/setup.log | tail -40; }
+test -f lib/PyErr.vo || { echo "setup failed: core library did not build"; exit 1; }
 echo "setup ok"
